@@ -1,5 +1,6 @@
 import PnVerif.Model.ReqQueue
 import PnVerif.Model.Merge
+import PnVerif.Model.Flatten
 /-
   C02 correspondence driver.
 
@@ -205,6 +206,18 @@ def stepUnit (line : String) : String :=
     let segs := parseSegs (rest.map (fun s => s.toInt?.getD 0))
     let m := mergeRequests segs
     s!"M {m.length} " ++ showSegs m ++ " F " ++ showBlocks (fileType m) ++ " B " ++ showBlocks (bufType m)
+  | "F" :: ndim :: el :: offset :: baddr :: rest =>
+    let nd := ndim.toNat?.getD 0
+    let v := rest.map (fun s => s.toNat?.getD 0)
+    let segs := PnVerif.Flatten.varsFlatten (el.toNat?.getD 1) (offset.toNat?.getD 0) (v.take nd) (baddr.toInt?.getD 0)
+                  ((v.drop nd).take nd) ((v.drop (2 * nd)).take nd) ((v.drop (3 * nd)).take nd)
+    if segs.isEmpty then "F 0" else s!"F {segs.length} " ++ showSegs segs
+  | "G" :: _n :: rest =>
+    let rec pairsOf : List Int → List (Int × Int)
+      | a :: b :: r => (a, b) :: pairsOf r
+      | _ => []
+    let b := PnVerif.Flatten.bufBlocks (pairsOf (rest.map (fun s => s.toInt?.getD 0)))
+    s!"G {b.length} " ++ showBlocks b
   | _ => "bad-op"
 
 partial def loopUnit (h : IO.FS.Stream) (out : IO.FS.Stream) : IO Unit := do
